@@ -12,6 +12,7 @@ import KskmProofs.Lemmas.C11Datetime
 import KskmProofs.Lemmas.C11Extract
 import KskmProofs.Lemmas.C11Reader
 import KskmProofs.Lemmas.SkrReadBack
+import KskmProofs.Lemmas.C11Week
 namespace Kskm.C11
 
 /-! ## Durations -/
@@ -429,5 +430,249 @@ theorem exCanonical_ok : WriterDomain exCanonical ∧ Constructible exCanonical 
 /-- … is read back identically -/
 example : ∃ text, skrToXml exCanonical = .ok text ∧ Xml.responseFromXml text = .ok exCanonical :=
   C11_roundtrip_identical exCanonical exCanonical_ok.1 exCanonical_ok.2.1 exCanonical_ok.2.2
+
+/-! ## ISO week dates (work package B2)
+
+  `parse_datetime` is `datetime.fromisoformat`, which since Python 3.11 also reads ISO 8601 week dates.  The model's
+  week branch (`Kskm.isoToCivil`, Kskm/TimeWeek.lean + Kskm/Time.lean) is specified here against the standard's
+  own definition (week 1 = the week with 4 January; long years) and against `date.isocalendar` (`Kskm.isoCalendar`,
+  Kskm/TimeIsoCal.lean), for ALL years — the `datetime` range 1 … 9999 is checked by the caller. -/
+section IsoWeek
+open Kskm.C11Week
+
+
+/-- what `isoToCivil` answers: the civil date of a day number produced by `isoWeekDayNumber` -/
+theorem isoToCivil_some (y : Int) (w d : Nat) (c : Civil) (h : isoToCivil y w d = some c) :
+    ∃ z, isoWeekDayNumber (jan1Of y) (isLeap y) w d = some z ∧ c = civilOfDays z := by
+  unfold isoToCivil at h
+  cases hz : isoWeekDayNumber (daysOfCivil { year := y, month := 1, day := 1 }) (isLeap y) w d with
+  | none => simp [hz] at h
+  | some z =>
+    simp only [hz, Option.map_some, Option.some.injEq] at h
+    exact ⟨z, hz, h.symm⟩
+
+/-- (1) The week-date branch of `fromisoformat` yields a real calendar date or an error, for every year,
+    week and day. -/
+theorem isoToCivil_valid (y : Int) (w d : Nat) (c : Civil) (h : isoToCivil y w d = some c) : c.valid = true :=
+  C11Week.isoToCivil_valid y w d c h
+
+/-- (2) ISO 8601's definition of week 1: `YYYY-W01-1` is a Monday, and its week (that Monday … the Sunday six
+    days later) contains 4 January of the year — stated with the civil-date functions of `Kskm.Time`. -/
+theorem isoWeek1_contains_jan4 (y : Int) :
+    ∃ c, isoToCivil y 1 1 = some c ∧ weekdayOfDays (daysOfCivil c) = 0 ∧
+      daysOfCivil c ≤ daysOfCivil { year := y, month := 1, day := 4 } ∧
+      daysOfCivil { year := y, month := 1, day := 4 } < daysOfCivil c + 7 := by
+  refine ⟨civilOfDays (isoWeek1Monday (jan1Of y)), ?_, ?_⟩
+  · simp [isoToCivil, isoWeekDayNumber, jan1Of]
+  · rw [daysOfCivil_civilOfDays, jan4_eq]
+    exact week1Monday_spec (jan1Of y)
+
+/-- (3) every accepted (week, day) is day `d` of week `w`: `7·(w−1) + (d−1)` days after the Monday of week 1,
+    so its weekday is `d` (1 = Monday … 7 = Sunday). -/
+theorem isoToCivil_offset (y : Int) (w d : Nat) (c : Civil) (h : isoToCivil y w d = some c) :
+    ∃ c1, isoToCivil y 1 1 = some c1 ∧ daysOfCivil c = daysOfCivil c1 + 7 * ((w : Int) - 1) + ((d : Int) - 1) ∧
+      weekdayOfDays (daysOfCivil c) = (d : Int) - 1 := by
+  obtain ⟨z, hz, rfl⟩ := isoToCivil_some y w d c h
+  obtain ⟨c1, h1, -⟩ := isoWeek1_contains_jan4 y
+  obtain ⟨z1, hz1, rfl⟩ := isoToCivil_some y 1 1 c1 h1
+  refine ⟨_, h1, ?_, ?_⟩
+  · rw [daysOfCivil_civilOfDays, daysOfCivil_civilOfDays]
+    have a := (isoWeekDayNumber_some _ _ _ _ _ hz).2.2.2.2
+    have b := (isoWeekDayNumber_some _ _ _ _ _ hz1).2.2.2.2
+    omega
+  · rw [daysOfCivil_civilOfDays]
+    exact isoWeekDayNumber_weekday _ _ _ _ _ hz
+
+/-- (4) which weeks exist: 1 … 52 always, 53 exactly in the long years — those in which 31 December falls in
+    week 53, i.e. 1 January is a Thursday, or a Wednesday of a leap year. -/
+theorem isoToCivil_isSome_iff (y : Int) (w d : Nat) :
+    (isoToCivil y w d).isSome = true ↔
+      1 ≤ d ∧ d ≤ 7 ∧ 1 ≤ w ∧ (w ≤ 52 ∨ (w = 53 ∧ (weekdayOfDays (jan1Of y) = 3 ∨ (weekdayOfDays (jan1Of y) = 2 ∧ isLeap y = true)))) := by
+  unfold isoToCivil isoWeekDayNumber hasWeek53
+  rw [show daysOfCivil { year := y, month := 1, day := 1 } = jan1Of y from rfl]
+  generalize weekdayOfDays (jan1Of y) = k
+  cases isLeap y <;> simp
+  all_goals (repeat' split) <;> simp <;> omega
+
+/-- (5) ROUND TRIP: `date.isocalendar()` of the date that `fromisoformat` reads from `YYYY-Www-d` is
+    (YYYY, ww, d) again — for every year (no range bound), every existing week and day. -/
+theorem isoWeek_roundtrip (y : Int) (w d : Nat) (c : Civil) (h : isoToCivil y w d = some c) :
+    isoCalendar (daysOfCivil c) = (y, (w : Int), (d : Int)) := by
+  obtain ⟨z, hz, rfl⟩ := isoToCivil_some y w d c h
+  rw [daysOfCivil_civilOfDays]
+  have hv := civilOfDays_valid z
+  have hb := year_bounds (civilOfDays z) hv
+  rw [daysOfCivil_civilOfDays] at hb
+  have hnear := isoWeekDayNumber_near_year _ _ _ _ _ hz
+  have hrt := isoCalendarRel_roundtrip (jan1Of y) (isLeap y) (isLeap (y - 1)) (isLeap (y + 1)) w d z hz
+  have hs := jan1Of_succ y
+  have hp := jan1Of_pred y
+  have hss := jan1Of_succ (y + 1)
+  have hpp := jan1Of_pred (y - 1)
+  have hl : ∀ b, yearLen b = 365 ∨ yearLen b = 366 := by intro b; cases b <;> simp [yearLen]
+  unfold isoCalendar
+  simp only []
+  by_cases c1 : z < jan1Of y
+  · have hy : (civilOfDays z).year = y - 1 := by
+      refine year_unique _ _ z hb.1 hb.2 ?_ ?_
+      · have := hl (isLeap (y - 1)); omega
+      · rw [show y - 1 + 1 = y by omega]; exact c1
+    rw [hy, show y - 1 + 1 = y by omega, hp]
+    have := hrt.2.1 c1 (jan1Of (y - 1 - 1))
+    rw [this]
+    simp <;> omega
+  · by_cases c2 : z < jan1Of y + yearLen (isLeap y)
+    · have hy : (civilOfDays z).year = y := by
+        refine year_unique _ _ z hb.1 hb.2 (by omega) ?_
+        rw [hs]; exact c2
+      rw [hy, hp, hs, hrt.1 (by omega) c2]
+      simp
+    · have hy : (civilOfDays z).year = y + 1 := by
+        refine year_unique _ _ z hb.1 hb.2 (by rw [hs]; omega) ?_
+        rw [hss, hs]
+        have := hl (isLeap (y + 1)); omega
+      rw [hy, show y + 1 - 1 = y by omega, hss, hs, hrt.2.2 (by omega)]
+      simp <;> omega
+
+/-- (6) THE TEXT: `parse_datetime("YYYY-Www-d")` is the ISO 8601 day — midnight UTC of the date `isoToCivil` names —
+    whenever that date exists and lies in `datetime`'s years 1 … 9999, and a `ValueError` otherwise; for every
+    four-digit year, two-digit week and one-digit day (so also `W00`, `W54`, day 0, 8, 9: all refused by (4)). -/
+theorem week_text_reads (Y w d : Nat) (hY : Y ≤ 9999) (hw : w ≤ 99) (hd : d ≤ 9) :
+    parseDatetimeChars [Nat.digitChar (Y / 1000), Nat.digitChar (Y / 100 % 10), Nat.digitChar (Y / 10 % 10),
+        Nat.digitChar (Y % 10), '-', 'W', Nat.digitChar (w / 10), Nat.digitChar (w % 10), '-', Nat.digitChar d]
+      = (match isoToCivil (Y : Int) w d with
+         | none => err .value
+         | some c => if !(decide (1 ≤ c.year) && decide (c.year ≤ 9999)) then err .value
+                     else pure (daysOfCivil c * usPerDay)) := by
+  have b1 : Y / 1000 < 10 := by omega
+  have b2 : Y / 100 % 10 < 10 := by omega
+  have b3 : Y / 10 % 10 < 10 := by omega
+  have b4 : Y % 10 < 10 := by omega
+  have b5 : w / 10 < 10 := by omega
+  have b6 : w % 10 < 10 := by omega
+  have b7 : d < 10 := by omega
+  have hstrip : stripTrailingZ ([Nat.digitChar (Y / 1000), Nat.digitChar (Y / 100 % 10), Nat.digitChar (Y / 10 % 10),
+      Nat.digitChar (Y % 10), '-', 'W', Nat.digitChar (w / 10), Nat.digitChar (w % 10), '-'] ++ [Nat.digitChar d])
+      = _ := stripTrailingZ_snoc _ _ (by
+        intro e
+        have := isDigit_digitChar_lt b7
+        rw [e] at this
+        revert this; decide)
+  unfold parseDatetimeChars
+  rw [show [Nat.digitChar (Y / 1000), Nat.digitChar (Y / 100 % 10), Nat.digitChar (Y / 10 % 10),
+      Nat.digitChar (Y % 10), '-', 'W', Nat.digitChar (w / 10), Nat.digitChar (w % 10), '-', Nat.digitChar d]
+      = [Nat.digitChar (Y / 1000), Nat.digitChar (Y / 100 % 10), Nat.digitChar (Y / 10 % 10),
+      Nat.digitChar (Y % 10), '-', 'W', Nat.digitChar (w / 10), Nat.digitChar (w % 10), '-'] ++ [Nat.digitChar d] from rfl,
+    hstrip]
+  simp only [List.cons_append, List.nil_append]
+  rw [fromIso_week_chars _ _ _ _ _ _ _ (isDigit_digitChar_lt b1) (isDigit_digitChar_lt b2) (isDigit_digitChar_lt b3)
+    (isDigit_digitChar_lt b4) (isDigit_digitChar_lt b5) (isDigit_digitChar_lt b6) (isDigit_digitChar_lt b7)]
+  simp only [sub48 _ b1, sub48 _ b2, sub48 _ b3, sub48 _ b4, sub48 _ b5, sub48 _ b6, sub48 _ b7]
+  have e1 : (((0 * 10 + Y / 1000) * 10 + Y / 100 % 10) * 10 + Y / 10 % 10) * 10 + Y % 10 = Y := by omega
+  have e2 : (0 * 10 + w / 10) * 10 + w % 10 = w := by omega
+  have e3 : 0 * 10 + d = d := by omega
+  rw [e1, e2, e3]
+  cases isoToCivil (Y : Int) w d <;> rfl
+
+/-- e.g. "2020-W53-7" is 3 January 2021, "2021-W53-1" and "9999-W52-6" are refused -/
+example : parseDatetime "2020-W53-7" = .ok 1609632000000000 ∧ parseDatetime "2021-W53-1" = err .value ∧
+    parseDatetime "9999-W52-6" = err .value ∧ parseDatetime "2020W537T2359Z" = .ok 1609718340000000 ∧
+    parseDuration "P٣DT１٢M" = .ok 259920000000 ∧ pyInt " ٣　".toList = .ok (some 3) := by decide +kernel
+
+/-- the hypotheses are met by concrete non-trivial inputs: 2020 is a long year (leap, starts on a Wednesday):
+    2020-W53-7 is 3 January 2021 and reads back; 2021 has no week 53; 9999-W52-6 leaves the range of `datetime`
+    (year 10000, still a real date — the caller's range check refuses it). -/
+example : isoToCivil 2020 53 7 = some { year := 2021, month := 1, day := 3 } ∧
+    isoCalendar (daysOfCivil { year := 2021, month := 1, day := 3 }) = (2020, 53, 7) ∧
+    isoToCivil 2021 53 1 = none ∧ isoToCivil 2024 1 1 = some { year := 2024, month := 1, day := 1 } ∧
+    isoToCivil 2021 1 1 = some { year := 2021, month := 1, day := 4 } ∧
+    isoToCivil 9999 52 6 = some { year := 10000, month := 1, day := 1 } ∧
+    isoToCivil 1 1 1 = some { year := 1, month := 1, day := 1 } := by decide +kernel
+
+end IsoWeek
+
+/-! ### (7) nothing is declined
+
+  Since work package B2 the three text readers of the model answer EVERY text — a value or a Python exception —
+  never `unsupported` (ISO week dates, non-ASCII octets, Unicode decimal digits and white space are modelled):
+  `parseDatetime_answers`, `parseDuration_answers`, `pyInt_answers`; the correspondence harness accordingly
+  counts an `unsupported` answer of these operations as a disagreement. -/
+
+theorem pyInt_answers (s : List Char) : pyInt s ≠ unsupported := by
+  unfold pyInt unsupported
+  repeat' split
+  all_goals simp [pure, Except.pure]
+
+theorem fromIsoGeneral_answers (cs : List Char) : fromIsoGeneral cs ≠ unsupported := by
+  unfold fromIsoGeneral unsupported
+  simp only []
+  repeat' split
+  all_goals simp [pure, Except.pure, err]
+
+theorem parseDatetime_answers (s : String) : parseDatetime s ≠ unsupported := by
+  unfold parseDatetime parseDatetimeChars fromIsoChars
+  simp only []
+  repeat' split
+  all_goals first
+    | exact fromIsoGeneral_answers _
+    | simp [pure, Except.pure, err, unsupported]
+
+theorem tdCheck_answers (us : Int) : tdCheck us ≠ unsupported := by
+  unfold tdCheck unsupported; split <;> simp [pure, Except.pure, err]
+
+theorem durationStepUni_answers (s : List Char) (ts : Bool) (acc : Int) : durationStepUni s ts acc ≠ unsupported := by
+  intro h
+  unfold durationStepUni at h
+  simp only [bind, Except.bind, pure, Except.pure] at h
+  repeat' split at h
+  all_goals first
+    | (simp [err, unsupported] at h; done)
+    | (rename_i heq
+       simp only [unsupported, Except.error.injEq] at h
+       subst h
+       first | exact absurd heq (tdCheck_answers _) | exact absurd heq (pyInt_answers _)
+             | (simp [err] at heq; done))
+
+theorem durationStep_answers (s : List Char) (ts : Bool) (acc : Int) : durationStep s ts acc ≠ unsupported := by
+  intro h
+  unfold durationStep at h
+  simp only [bind, Except.bind, pure, Except.pure] at h
+  repeat' split at h
+  all_goals first
+    | exact absurd h (durationStepUni_answers _ _ _)
+    | (first
+      | (simp [err, unsupported] at h; done)
+      | (rename_i heq
+         simp only [unsupported, Except.error.injEq] at h
+         subst h
+         first | exact absurd heq (tdCheck_answers _) | exact absurd heq (pyInt_answers _)
+               | (simp [err] at heq; done)))
+
+theorem parseDurationLoop_answers (fuel : Nat) (s : List Char) (ts : Bool) (acc : Int) :
+    parseDurationLoop fuel s ts acc ≠ unsupported := by
+  induction fuel generalizing s ts acc with
+  | zero => unfold parseDurationLoop; split <;> simp [pure, Except.pure, err, unsupported]
+  | succ n ih =>
+    unfold parseDurationLoop
+    split
+    · simp [pure, Except.pure, unsupported]
+    · split
+      · rename_i e heq
+        intro h
+        simp only [unsupported, Except.error.injEq] at h
+        subst h
+        exact durationStep_answers _ _ _ heq
+      · simp [pure, Except.pure, unsupported]
+      · exact ih _ _ _
+
+theorem parseDuration_answers (s : String) : parseDuration s ≠ unsupported := by
+  unfold parseDuration parseDurationChars
+  split
+  · simp [pure, Except.pure, unsupported]
+  · exact parseDurationLoop_answers _ _ _ _
+  · simp [err, unsupported]
+
+example : parseDatetime "2024-W05\u00e9" = err .value ∧ parseDuration "P1\u00b2D" = err .value ∧ pyInt "\u00bd".toList = .ok none := by
+  decide +kernel
 
 end Kskm.C11
